@@ -489,6 +489,9 @@ func c10mkSpec(sec, in, ans string) (string, string) {
 		}
 		varname, value, sp, hc, comment, align := unhx(f[2]), unhx(f[5]), unhx(f[7]), f[8] == "1", unhx(f[9]), f[10]
 		if align == "P" {
+			if strings.Contains(varname, "$#") {
+				return "valuealign-panic-dollar-hash-in-varname", "matchVarassign accepts the line but MkLine.ValueAlign() (VaralignSplitter.split) panics"
+			}
 			if strings.Contains(varname, "#") {
 				return "valuealign-panic-escaped-hash-in-varname", "matchVarassign accepts the line but MkLine.ValueAlign() (VaralignSplitter.split) panics"
 			}
